@@ -129,6 +129,7 @@ type HistOpts struct {
 	Steps     int
 	Weights   map[string]int // op kind -> weight
 	CrossType bool
+	Blind     bool // no observation of contents until one final Observe (see World.Blind); needs !CrossType
 }
 
 var DefaultWeights = map[string]int{"Alloc": 6, "Slice": 14, "AppendSample": 12, "SetSample": 10, "Sample": 3,
@@ -163,6 +164,13 @@ type lineage struct{ root []int }
 // RandomHistory runs one random trace.
 func RandomHistory(w *World, rng *rand.Rand, o HistOpts) {
 	w.Reset()
+	if o.Blind && !o.CrossType {
+		w.NoObs, w.Blind = true, true
+		defer func() {
+			w.NoObs, w.Blind = false, false
+			w.Observe()
+		}()
+	}
 	lin := []int{}
 	nextRoot := 0
 	ty := func() string { return o.Types[rng.Intn(len(o.Types))] }
@@ -228,6 +236,9 @@ func RandomHistory(w *World, rng *rand.Rand, o HistOpts) {
 			}
 			if !appendJudgeable(v, w.Views[si]) || v.Len()+w.Views[si].Len() > 2048 {
 				continue // (repeated self-appends double the length; keep the logged contents bounded)
+			}
+			if w.Blind && lin[vi] == lin[si] {
+				continue // an overlapping in-place append is judged from what was seen afterwards: not in a blind history
 			}
 			w.Do(Op{K: "Append", A: []int{vi, si}})
 		case "Write":
